@@ -275,7 +275,7 @@ decorators:
 var rePanic = regexp.MustCompile(`(?m)^(panic:|fatal error:|goroutine \d+ \[)`)
 
 func checkC12(c *Ctx) error {
-	nMut := c.Pick(9000, 120000)
+	nMut := c.Pick(9000, 60000)
 	c.Rule = fmt.Sprintf("(1) %d seeded byte/token-level mutants of a corpus of valid and invalid configurations (flip, delete, duplicate, splice, snippet insertion incl. anchors/aliases/tags/merge keys/timestamps/huge numbers, indentation changes, long tokens) x random flag sets x 1-3 files and patterns x (a quarter of the runs) an extra directory entry the patterns also match (dangling link, link loop, directory, link to a directory or device, empty file, glob characters or 240 bytes in the name, the same file through a link), through the real binary under a watchdog; (2) schema-aware type confusions: every value position of a template configuration replaced by 20 node kinds, every position holding a Go reference by 45 import-path shapes (one segment, /vN suffixes, dots, dashes, reserved names; quoted and unquoted), every scalar position by 21 !!binary byte strings that are not valid UTF-8 (next to % tokens and argument sigils), plus non-scalar keys, merge keys, aliases across sections, 10 000-deep nesting, 1 MiB names; pairs of confusions of the same position as two merged input files; 4-101 -i flags; (3) thorough tier: native coverage-guided fuzzing of the build command in-process (go test -fuzz, iteration-bounded). Oracle: exit status in {0,1}, no panic/fatal error/goroutine dump on stderr, CLI contract (report consistent; failing run leaves -o untouched; success leaves a parsable file), run time under 1000x the normal time (a timeout only counts after it reproduces twice). distinct = distinct input bytes; non-trivial = input differs from every corpus entry", nMut)
 	c.Assumptions = []string{"inputs whose reference structure would have very many elementary cycles are excluded by construction (mutants of sparse configurations; the fuzz target skips inputs with more than 40 reference markers)", "coverage-guided mutation is not seedable: crashers are saved as replay files"}
 	w := c.W
@@ -690,7 +690,7 @@ func c12NativeFuzz(c *Ctx, corpus []string) error {
 			_ = work.WriteFile(filepath.Join(dst, "testdata", "seeds", fmt.Sprintf("s%04d.yaml", i)), []byte(s))
 		}
 	}
-	execs := c.Pick(200000, 3000000)
+	execs := c.Pick(200000, 1000000)
 	if v := os.Getenv("VERIF_C12_FUZZ"); v != "" && !c.Thorough() {
 		execs = 100000
 	}
